@@ -107,12 +107,122 @@ theorem topK_isTopK {o : Ops α} (h : OrdLaws o) (k : Int) (ts : List (Tok α)) 
   refine ⟨topKSpec_isTopK h k ts, fun hk => ?_⟩
   rw [topK_sort_branch o k ts hk]; exact topKSpec_isTopK h k ts
 
+/-- **topK returns tokens of its input** — both branches, no law assumed; for `0 < k < len` the
+    heap branch (exact mirror of `container/heap`) returns exactly `k` of them -/
+theorem topK_returns_input_tokens (o : Ops α) (k : Int) (ts : List (Tok α)) :
+    (∀ y ∈ topK o k ts, y ∈ ts) ∧
+    (0 < k → k < ts.length → (topK o k ts).length = k.toNat) := by
+  refine ⟨topK_mem o k ts, fun h0 hlt => ?_⟩
+  have hk : ¬ (k ≥ (ts.length : Int) ∨ k ≤ 0) := by omega
+  simp only [topK, hk, if_false]
+  exact (topKHeap_mem o k.toNat ts (by omega) (by omega)).1
+
+/-- **minP is the threshold filter**: on the descending list it is given, cutting at the first
+    entry below `max·p` keeps exactly `{t | ¬ t < max·p}` -/
+theorem minP_is_threshold_filter {o : Ops α} (h : OrdLaws o) (p : α) (t0 : Tok α) (rest : List (Tok α))
+    (hd : (t0 :: rest).Pairwise (fun a b => o.lt a.val b.val = false)) :
+    minP o p (t0 :: rest) = .ok ((t0 :: rest).filter (fun t => !o.lt t.val (o.mul t0.val p))) :=
+  minP_eq_filter h p t0 rest hd
+
+/-- **the pick is the first index** whose cumulative sum is not below the target, when the
+    cumulative sums are ascending (run contract `cum`) -/
+theorem pick_first_index {o : Ops α} (h : OrdLaws o) (C : List (Tok α)) (target : α)
+    (hasc : isAsc o (C.map (·.val)) = true) :
+    ∀ j, j < bsearch (belowAt o C target) (C.length + 1) 0 C.length → belowAt o C target j = true :=
+  bsearch_first h C target hasc
+
+/-- **no panic**: with a non-empty logit vector and temperature > 0 the pinned `Sample` returns a
+    token or the NaN error as soon as the two arithmetic run contracts hold (`max·minP ≤ max`,
+    `r·total ≤ total`); at temperature 0 it always returns a token. -/
+theorem sample_never_panics (o : Ops α) (P : Params α) (r : α) (logits : List α) (hne : logits ≠ [])
+    (hmin : ∀ t0 rest, topP o P.topP (probsOf o P (topK o P.topK (mkTokens logits))) = t0 :: rest →
+        o.lt t0.val (o.mul t0.val P.minP) = false)
+    (hr : ∀ f last, minP o P.minP (topP o P.topP (probsOf o P (topK o P.topK (mkTokens logits)))) = .ok f →
+        (cumsum o o.zero f).getLast? = some last → o.lt last.val (o.mul r last.val) = false) :
+    (∃ id, Sample o false P r logits = .ok id) ∨ Sample o false P r logits = .error .nanSum := by
+  cases logits with
+  | nil => exact absurd rfl hne
+  | cons v vs =>
+    simp only [Sample, sampleCore]
+    split
+    · left
+      simp only [mkTokens, mkTokensFrom, greedy, Except.map]
+      exact ⟨_, rfl⟩
+    · have hL : topK o P.topK (mkTokens (v :: vs)) ≠ [] := by
+        intro h0
+        by_cases hk : (P.topK ≥ ((mkTokens (v :: vs)).length : Int) ∨ P.topK ≤ 0)
+        · have := (sortDesc_perm o (mkTokens (v :: vs))).length_eq
+          simp only [topK, hk, if_true] at h0
+          rw [h0] at this
+          simp [mkTokens, mkTokensFrom] at this
+        · have := (topKHeap_mem o P.topK.toNat (mkTokens (v :: vs)) (by omega) (by omega)).1
+          simp only [topK, hk, if_false] at h0
+          rw [h0] at this
+          simp at this; omega
+      rcases afterTopK_no_panic o P r _ hL hmin hr with ⟨t, ht⟩ | he
+      · left; rw [ht]; exact ⟨t.id, rfl⟩
+      · right; rw [he]; rfl
+
+theorem shiftMax_cases (o : Ops α) (L : List (Tok α)) (hL : L ≠ []) :
+    shiftMax o L = .error .allNegInf ∨ ∃ L1, shiftMax o L = .ok L1 ∧ L1 ≠ [] := by
+  cases L with
+  | nil => exact absurd rfl hL
+  | cons t0 rest =>
+    simp only [shiftMax]
+    split
+    · exact Or.inl rfl
+    · exact Or.inr ⟨_, rfl, by simp⟩
+
+/-- **no panic, repaired variant** (what /repo runs): token, NaN error, or the explicit
+    "all logits are -Inf" error; the contracts are those of the run on the shifted list -/
+theorem sample_never_panics_fixed (o : Ops α) (P : Params α) (r : α) (logits : List α) (hne : logits ≠ [])
+    (hmin : ∀ L1 t0 rest, shiftMax o (topK o P.topK (mkTokens logits)) = .ok L1 →
+        topP o P.topP (probsOf o P L1) = t0 :: rest → o.lt t0.val (o.mul t0.val P.minP) = false)
+    (hr : ∀ L1 f last, shiftMax o (topK o P.topK (mkTokens logits)) = .ok L1 →
+        minP o P.minP (topP o P.topP (probsOf o P L1)) = .ok f →
+        (cumsum o o.zero f).getLast? = some last → o.lt last.val (o.mul r last.val) = false) :
+    (∃ id, Sample o true P r logits = .ok id) ∨ Sample o true P r logits = .error .nanSum ∨
+      Sample o true P r logits = .error .allNegInf := by
+  cases logits with
+  | nil => exact absurd rfl hne
+  | cons v vs =>
+    simp only [Sample, sampleCore]
+    split
+    · left
+      simp only [mkTokens, mkTokensFrom, greedy, Except.map]
+      exact ⟨_, rfl⟩
+    · have hL : topK o P.topK (mkTokens (v :: vs)) ≠ [] := by
+        intro h0
+        by_cases hk : (P.topK ≥ ((mkTokens (v :: vs)).length : Int) ∨ P.topK ≤ 0)
+        · have := (sortDesc_perm o (mkTokens (v :: vs))).length_eq
+          simp only [topK, hk, if_true] at h0
+          rw [h0] at this
+          simp [mkTokens, mkTokensFrom] at this
+        · have := (topKHeap_mem o P.topK.toNat (mkTokens (v :: vs)) (by omega) (by omega)).1
+          simp only [topK, hk, if_false] at h0
+          rw [h0] at this
+          simp at this; omega
+      have hunf : ∀ L, afterTopK o true P r L =
+          (match shiftMax o L with
+           | Except.error e => Except.error e
+           | Except.ok L1 => afterTopK o false P r L1) := by
+        intro L
+        unfold afterTopK
+        simp only [if_true, bind, Except.bind, Bool.false_eq_true, if_false, pure, Except.pure]
+        cases shiftMax o L <;> rfl
+      rw [hunf]
+      rcases shiftMax_cases o _ hL with he | ⟨L1, hs, hL1⟩
+      · right; right; rw [he]; rfl
+      · rw [hs]
+        simp only
+        rcases afterTopK_no_panic o P r L1 hL1 (hmin L1 · · hs) (hr L1 · · hs) with ⟨t, ht⟩ | he
+        · left; rw [ht]; exact ⟨t.id, rfl⟩
+        · right; left; rw [he]; rfl
 /-- **index_in_range.**  Whatever the carrier does (NaN included, no law assumed): if `Sample`
-    returns an id, it is an index into the logits — hence inside the vocabulary.  `hmem` ("topK
-    returns tokens of its input") is proved for the sorting branch (`topK_isTopK`) and validated
-    per run for the heap branch.  Both variants (`fix`). -/
+    returns an id, it is an index into the logits — hence inside the vocabulary.  Unconditional:
+    both branches of `topK` (the sort and the mirrored `container/heap` code) are proved to return
+    tokens of their input (`topK_mem`).  Both variants (`fix`). -/
 theorem index_in_range (o : Ops α) (fix : Bool) (P : Params α) (r : α) (logits : List α) (id : Nat)
-    (hmem : ∀ y ∈ topK o P.topK (mkTokens logits), y ∈ mkTokens logits)
     (hS : Sample o fix P r logits = .ok id) : id < logits.length := by
   obtain ⟨t, hc, hid⟩ := Sample_ok o fix P r logits id hS
   unfold sampleCore at hc
@@ -120,7 +230,7 @@ theorem index_in_range (o : Ops α) (fix : Bool) (P : Params α) (r : α) (logit
     split at hc
     · exact ⟨t, greedy_mem o _ _ hc, hid⟩
     · obtain ⟨y, hy, hyid⟩ := afterTopK_id_any o fix P r _ t hc
-      exact ⟨y, hmem y hy, by rw [hyid, hid]⟩
+      exact ⟨y, topK_mem o _ _ y hy, by rw [hyid, hid]⟩
   obtain ⟨y, hy, hyid⟩ := key
   have := mkTokens_mem logits y hy
   rw [hyid] at this
@@ -138,7 +248,6 @@ theorem index_in_range (o : Ops α) (fix : Bool) (P : Params α) (r : α) (logit
 theorem sample_admissible_partial {o : Ops α} (laws : Laws o) (P : Params α) (r : α)
     (logits : List α) (id : Nat) (ht : o.beq P.temp o.zero = false)
     (hS : Sample o false P r logits = .ok id)
-    (hk : IsTopK o P.topK (mkTokens logits) (topK o P.topK (mkTokens logits)))
     (hg : guardOK o (scaledOf o P (topK o P.topK (mkTokens logits))) = true)
     (hsc : scaleOK o ((topK o P.topK (mkTokens logits)).map (·.val))
               (scaledOf o P (topK o P.topK (mkTokens logits))) = true)
@@ -154,7 +263,7 @@ theorem sample_admissible_partial {o : Ops α} (laws : Laws o) (P : Params α) (
   simp only [ht, Bool.false_eq_true, if_false] at hc
   obtain ⟨idx, y, f, x, hy, hyid, hyv, hf, hpre, hx, hxid⟩ :=
     afterTopK_spec laws.ord laws.addZero laws.beq P r _ t hc hg hsc hsm
-  have hym : y ∈ mkTokens logits := hk.mem y (List.mem_of_getElem? hy)
+  have hym : y ∈ mkTokens logits := topK_mem o _ _ y (List.mem_of_getElem? hy)
   have := mkTokens_mem logits y hym
   rw [hyid, hid] at this
   exact ⟨y.val, idx, f, x, this, hyv, hf, hpre, hx, by rw [hxid, hid]⟩
@@ -163,21 +272,19 @@ theorem sample_admissible_partial {o : Ops α} (laws : Laws o) (P : Params α) (
 theorem never_neg_inf {o : Ops α} (laws : Laws o) (P : Params α) (r : α)
     (logits : List α) (id : Nat) (ht : o.beq P.temp o.zero = false)
     (hS : Sample o false P r logits = .ok id)
-    (hk : IsTopK o P.topK (mkTokens logits) (topK o P.topK (mkTokens logits)))
     (hg : guardOK o (scaledOf o P (topK o P.topK (mkTokens logits))) = true)
     (hsc : scaleOK o ((topK o P.topK (mkTokens logits)).map (·.val))
               (scaledOf o P (topK o P.topK (mkTokens logits))) = true)
     (hsm : softmaxOK o (scaledOf o P (topK o P.topK (mkTokens logits)))
               (softmaxVals o (scaledOf o P (topK o P.topK (mkTokens logits)))) = true) :
     ∃ v, logits[id]? = some v ∧ o.beq v o.negInf = false := by
-  obtain ⟨v, _, _, _, h1, h2, _⟩ := sample_admissible_partial laws P r logits id ht hS hk hg hsc hsm
+  obtain ⟨v, _, _, _, h1, h2, _⟩ := sample_admissible_partial laws P r logits id ht hS hg hsc hsm
   exact ⟨v, h1, h2⟩
 
 /-- **result_mem_filters**: the returned id is the id of a member of `minP (topP (…topK…))` -/
 theorem result_mem_filters {o : Ops α} (laws : Laws o) (P : Params α) (r : α)
     (logits : List α) (id : Nat) (ht : o.beq P.temp o.zero = false)
     (hS : Sample o false P r logits = .ok id)
-    (hk : IsTopK o P.topK (mkTokens logits) (topK o P.topK (mkTokens logits)))
     (hg : guardOK o (scaledOf o P (topK o P.topK (mkTokens logits))) = true)
     (hsc : scaleOK o ((topK o P.topK (mkTokens logits)).map (·.val))
               (scaledOf o P (topK o P.topK (mkTokens logits))) = true)
@@ -186,7 +293,7 @@ theorem result_mem_filters {o : Ops α} (laws : Laws o) (P : Params α) (r : α)
     ∃ f, minP o P.minP (topP o P.topP (probsOf o P (topK o P.topK (mkTokens logits)))) = .ok f ∧
       ∃ x ∈ f, x.id = id := by
   obtain ⟨_, idx, f, x, _, _, hf, _, hx, hxid⟩ :=
-    sample_admissible_partial laws P r logits id ht hS hk hg hsc hsm
+    sample_admissible_partial laws P r logits id ht hS hg hsc hsm
   exact ⟨f, hf, x, List.mem_of_getElem? hx, hxid⟩
 
 /-- the binary search of the pick, without any monotonicity assumption: the returned index is in
@@ -388,8 +495,7 @@ example :
     F18 inputs now satisfy the hypotheses (witness `F18_nan_instead_of_token`, second half). -/
 theorem sample_admissible_fixed_partial {o : Ops α} (laws : Laws o) (P : Params α) (r : α)
     (logits : List α) (id : Nat) (ht : o.beq P.temp o.zero = false)
-    (hS : Sample o true P r logits = .ok id)
-    (hk : IsTopK o P.topK (mkTokens logits) (topK o P.topK (mkTokens logits))) :
+    (hS : Sample o true P r logits = .ok id) :
     ∃ L1, shiftMax o (topK o P.topK (mkTokens logits)) = .ok L1 ∧
     (guardOK o (scaledOf o P L1) = true →
      scaleOK o ((topK o P.topK (mkTokens logits)).map (·.val)) (L1.map (·.val)) = true →
@@ -406,7 +512,7 @@ theorem sample_admissible_fixed_partial {o : Ops α} (laws : Laws o) (P : Params
   refine ⟨L1, hs, ?_⟩
   intro hg hsh hsc hsm
   obtain ⟨idx, y, f, x, hy, hyid, hyv, hf, hpre, hx, hxid⟩ := hrest hg hsh hsc hsm
-  have hym : y ∈ mkTokens logits := hk.mem y (List.mem_of_getElem? hy)
+  have hym : y ∈ mkTokens logits := topK_mem o _ _ y (List.mem_of_getElem? hy)
   have := mkTokens_mem logits y hym
   rw [hyid, hid] at this
   exact ⟨y.val, idx, f, x, this, hyv, hf, hpre, hx, by rw [hxid, hid]⟩
